@@ -1648,12 +1648,19 @@ func splitGoal(g *Term, depth int) []*Term {
 // fresh variables everywhere in the state: later obligations may only use
 // what has been asserted about it so far.
 func (x *Exec) generalize(st *State, env *Env, name string) {
-	val, ok := env.lookup(name)
-	if !ok {
-		// a Go local that does not exist on this path (early return): nothing to generalise here
-		return
-	}
-	if _, bad := val.(*Poison); bad {
+	var val Value
+	func() {
+		defer func() {
+			if r := recover(); r != nil {
+				if _, ok := r.(engineErr); !ok {
+					panic(r)
+				}
+				val = nil // a Go local that does not exist on this path (early return)
+			}
+		}()
+		val = x.evalIdent(st, env, name)
+	}()
+	if val == nil {
 		return
 	}
 	var leaves []*Term
